@@ -21,6 +21,20 @@ def scenarios(rng, n):
     return out
 
 
+def chunks_at_reset(lines, n):
+    """split a bucket trace into parts of about n lines, cutting only in front of a reset event: a part that began in
+    the middle of a scenario made the follower start from a full bucket and an idle source (false alarm
+    quietSourceGetsNoRefused with seed 11, whose bucket trace was the first longer than one part)"""
+    part = []
+    for ln in lines:
+        if len(part) >= n and '"ev":"reset"' in ln.replace(" ", ""):
+            yield part
+            part = []
+        part.append(ln)
+    if part:
+        yield part
+
+
 def impl_constants():
     """erbium's bucket constants, read from the source for the drift-only expectation"""
     src = open("/repo/crates/erbium-core/src/dns/bucket.rs").read()
@@ -51,9 +65,10 @@ def check(pid, tier):
         total, nlines, samples = {}, 0, []
         for i, t in enumerate((t1, t2)):
             lines = open(t).readlines()
-            for j, part in enumerate(chunks(lines, 6000)):
+            for j, part in enumerate(chunks_at_reset(lines, 6000) if i == 0 else chunks(lines, 6000)):
                 pf = run.path("part-%d-%d.ndjson" % (i, j))
-                # a part must start with a reset so that the follower's bucket matches the real one
+                # a part of the bucket trace starts with a reset so that the follower's bucket and its
+                # "last request" time match the real one (cookie events are independent of each other)
                 open(pf, "w").write("".join(part))
                 rep = tlc_trace(run, "RateLimitTrace", "RateLimitTrace.cfg", pf, ov, tag="tv%d_%d" % (i, j))
                 record_violations(run, pid, rep["viol"], part, trace_name="rl%d_%d" % (i, j))
